@@ -119,6 +119,8 @@ SymE4  == ""
 SymB8  == ""
 SymF0  == ""
 SymFF  == ""
+SymC3  == ""
+SymA9  == ""
 RuneErr == "�"      \* U+FFFD, what an invalid byte becomes inside parsed data
 
 IndentStyles == <<"    ", "   ", "  ", TAB>>      \* longest first
